@@ -554,6 +554,169 @@ theorem orientation_irrelevant_kernel_orders (ops : MemOps σ R) (hl : Lawful op
 end KernelOrders
 
 
+/-! ## 3c. folds, blocked / tiled kernels, extent of strided proxies -/
+section Kernels
+
+/-- **foldFrom_max_spec** — the row fold with `max`, seeded with the first element, is the maximum
+of `x 0 .. x n`: an upper bound that is attained — for data of any sign. -/
+theorem foldFrom_max_spec {R : Type} [LinearOrder R] (x : Nat → R) (n : Nat) :
+    (∀ k, k ≤ n → x k ≤ foldFrom max x n) ∧ ∃ k, k ≤ n ∧ foldFrom max x n = x k := by
+  induction n with
+  | zero => exact ⟨fun k hk => by simp [Nat.le_zero.mp hk, foldFrom], 0, Nat.le_refl 0, rfl⟩
+  | succ n ih =>
+    obtain ⟨hub, k0, hk0, hat⟩ := ih
+    constructor
+    · intro k hk
+      simp only [foldFrom]
+      rcases Nat.lt_or_ge k (n + 1) with h | h
+      · exact le_trans (hub k (by omega)) (le_max_left _ _)
+      · have : k = n + 1 := by omega
+        subst this; exact le_max_right _ _
+    · simp only [foldFrom]
+      rcases max_choice (foldFrom max x n) (x (n + 1)) with h | h
+      · exact ⟨k0, by omega, by rw [h, hat]⟩
+      · exact ⟨n + 1, Nat.le_refl _, h⟩
+
+/-- **foldFrom_min_spec** — the same for `min`. -/
+theorem foldFrom_min_spec {R : Type} [LinearOrder R] (x : Nat → R) (n : Nat) :
+    (∀ k, k ≤ n → foldFrom min x n ≤ x k) ∧ ∃ k, k ≤ n ∧ foldFrom min x n = x k := by
+  induction n with
+  | zero => exact ⟨fun k hk => by simp [Nat.le_zero.mp hk, foldFrom], 0, Nat.le_refl 0, rfl⟩
+  | succ n ih =>
+    obtain ⟨hlb, k0, hk0, hat⟩ := ih
+    constructor
+    · intro k hk
+      simp only [foldFrom]
+      rcases Nat.lt_or_ge k (n + 1) with h | h
+      · exact le_trans (min_le_left _ _) (hlb k (by omega))
+      · have : k = n + 1 := by omega
+        subst this; exact min_le_right _ _
+    · simp only [foldFrom]
+      rcases min_choice (foldFrom min x n) (x (n + 1)) with h | h
+      · exact ⟨k0, by omega, by rw [h, hat]⟩
+      · exact ⟨n + 1, Nat.le_refl _, h⟩
+
+/-- **rowFold_max_is_row_maximum** — `max(as_rows(M))_i` (and, through `trans`, `max(as_columns(M))_j`)
+is the largest element of the line: `≥` every element of the line and equal to one of them. -/
+theorem rowFold_max_is_row_maximum {R : Type} [LinearOrder R] [Zero R] [Add R] [Mul R] (m : MExp R) (i : Nat)
+    (h : 0 < m.size2) :
+    (∀ j, j < m.size2 → m.get i j ≤ (VExp.rowFold m max id).get i) ∧
+    ∃ j, j < m.size2 ∧ (VExp.rowFold m max id).get i = m.get i j := by
+  have hne : m.size2 ≠ 0 := by omega
+  obtain ⟨hub, k, hk, hat⟩ := foldFrom_max_spec (fun k => m.get i k) (m.size2 - 1)
+  simp only [VExp.get, hne, if_false, id]
+  exact ⟨fun j hj => hub j (by omega), k, by omega, hat⟩
+
+theorem rowFold_min_is_row_minimum {R : Type} [LinearOrder R] [Zero R] [Add R] [Mul R] (m : MExp R) (i : Nat)
+    (h : 0 < m.size2) :
+    (∀ j, j < m.size2 → (VExp.rowFold m min id).get i ≤ m.get i j) ∧
+    ∃ j, j < m.size2 ∧ (VExp.rowFold m min id).get i = m.get i j := by
+  have hne : m.size2 ≠ 0 := by omega
+  obtain ⟨hlb, k, hk, hat⟩ := foldFrom_min_spec (fun k => m.get i k) (m.size2 - 1)
+  simp only [VExp.get, hne, if_false, id]
+  exact ⟨fun j hj => hlb j (by omega), k, by omega, hat⟩
+
+/-- **foldRowsBlocked_correct** — the blocked column-major kernel computes the denotation of
+`matrix_row_transform` for every block size `bs`, every shape and every fold function. -/
+theorem foldRowsBlocked_correct {R : Type} [Zero R] [Add R] [Mul R] (m : MExp R) (f : R → R → R) (g : R → R)
+    (bs : Nat) (r : Nat) (h : 0 < m.size2) :
+    foldRowsBlocked f g m.get m.size2 bs r = (VExp.rowFold m f g).get r := by
+  have hne : m.size2 ≠ 0 := by omega
+  have hr : r / bs * bs + r % bs = r := by rw [Nat.mul_comm]; exact Nat.div_add_mod r bs
+  simp only [foldRowsBlocked, VExp.get, hne, if_false, hr]
+
+/-- a fold that starts from the seed `0` instead of the line's first element is a different function:
+it is wrong for `max` on all-negative lines (and for `min` on all-positive ones) -/
+example : foldSeeded max (0 : Int) (fun k => [-3, -1, -2].getD k 0) 2 = 0 ∧
+    foldFrom max (fun k => ([-3, -1, -2] : List Int).getD k 0) 2 = -1 := by decide
+example : foldSeeded min (0 : Int) (fun k => [3, 1, 2].getD k 0) 2 = 0 ∧
+    foldFrom min (fun k => ([3, 1, 2] : List Int).getD k 0) 2 = 1 := by decide
+
+/-- partial sums over full tiles -/
+theorem sumTo_tiles {R : Type} [CommRing R] (T : Nat) (f : Nat → R) : ∀ q : Nat,
+    sumTo q (fun b => sumTo T (fun k => f (b * T + k))) = sumTo (q * T) f := by
+  intro q
+  induction q with
+  | zero => simp [sumTo]
+  | succ q ih =>
+    simp only [sumTo, ih]
+    rw [Nat.succ_mul, sumTo_append]
+
+/-- **sumTiled_correct** — tiling the inner dimension of a product into `⌈K/T⌉` tiles that start at
+`b*T` and have `min T (K - b*T)` columns gives the defining sum `Σ_{k<K}`, for every tile size
+`T > 0` and every `K` (in particular `K` not a multiple of `T`, `K < T`, `K = 0`). -/
+theorem sumTiled_correct {R : Type} [CommRing R] (T K : Nat) (hT : 0 < T) (f : Nat → R) :
+    sumTiled T K f = sumTo K f := by
+  unfold sumTiled
+  -- K = q*T + r with r < T
+  obtain ⟨q, r, hr, rfl⟩ : ∃ q r, r < T ∧ K = q * T + r :=
+    ⟨K / T, K % T, Nat.mod_lt _ hT, by rw [Nat.mul_comm]; exact (Nat.div_add_mod K T).symm⟩
+  rcases Nat.eq_zero_or_pos r with h0 | hpos
+  · subst h0
+    have hq : (q * T + 0 + T - 1) / T = q := by
+      have : q * T + 0 + T - 1 = T - 1 + T * q := by rw [Nat.mul_comm]; omega
+      rw [this, Nat.add_mul_div_left _ _ hT, Nat.div_eq_of_lt (by omega)]; omega
+    rw [hq, Nat.add_zero, ← sumTo_tiles T f q]
+    apply sumTo_congr rfl
+    intro b hb
+    have : T ≤ q * T - b * T := by
+      rw [← Nat.sub_mul]; exact Nat.le_mul_of_pos_left T (by omega)
+    rw [Nat.min_eq_left this]
+  · have hq : (q * T + r + T - 1) / T = q + 1 := by
+      have : q * T + r + T - 1 = (r - 1) + T * (q + 1) := by rw [Nat.mul_comm q T, Nat.mul_add]; omega
+      rw [this, Nat.add_mul_div_left _ _ hT, Nat.div_eq_of_lt (by omega)]; omega
+    rw [hq]
+    simp only [sumTo]
+    rw [sumTo_append, ← sumTo_tiles T f q]
+    congr 1
+    · apply sumTo_congr rfl
+      intro b hb
+      have : T ≤ q * T + r - b * T := by
+        have : T ≤ q * T - b * T := by
+          rw [← Nat.sub_mul]; exact Nat.le_mul_of_pos_left T (by omega)
+        omega
+      rw [Nat.min_eq_left this]
+    · have : q * T + r - q * T = r := by omega
+      rw [this, Nat.min_eq_right (by omega)]
+
+/-- a tile that starts at `b * (current tile size)` instead of `b*T` drops the tail and repeats an
+earlier slice: `K = 3`, `T = 2`, `f k = 10^k` gives `11 + 10` instead of `111` -/
+example : sumTiled 2 3 (fun k => (10 : Int) ^ k) = 111 ∧
+    sumTo 2 (fun b => sumTo (min 2 (3 - b * 2)) (fun k => (10 : Int) ^ (b * (min 2 (3 - b * 2)) + k))) = 21 := by
+  decide
+
+/-- **strided_disjoint_of_extent** — two strided proxies do not share a cell when the LAST cell of one
+(`base + (size-1)*stride`, not `base + size`) lies before the first cell of the other. -/
+theorem strided_disjoint_of_extent (t s : VRef) (h : t.last < s.first) (i j : Nat) (hi : i < t.size) :
+    t.addr i ≠ s.addr j := by
+  unfold VRef.last VRef.first at h
+  unfold VRef.addr
+  have : i * t.stride ≤ (t.size - 1) * t.stride := Nat.mul_le_mul_right _ (by omega)
+  omega
+
+/-- the test `base + size ≤ base'` (extent measured in elements, stride forgotten) does NOT imply
+disjointness: rows 1..3 and rows 0..2 of a column of a 4-wide row-major matrix pass it and share 2 cells -/
+example : let s : VRef := ⟨0, 4, 3⟩; let t : VRef := ⟨4, 4, 3⟩
+    s.base + s.size ≤ t.base ∧ t.addr 0 = s.addr 1 ∧ t.addr 1 = s.addr 2 := by decide
+
+/-- and there the in-place loop is wrong: shifting a strided window down by one through a temporary
+gives `(x0,x0,x1,x2)`, in place it smears the first element `(x0,x0,x0,x0)` -/
+example :
+    let mem : Nat → Int := fun a => a
+    let src : VRef := ⟨0, 4, 3⟩
+    let tgt : VRef := ⟨4, 4, 3⟩
+    let viaTemp := assignAlias (funMem Int) (fun _ y => y) tgt.addr (fun m i => m (src.addr i)) [0, 1, 2] mem
+    let inPlace := assignNoalias (funMem Int) (fun _ y => y) tgt.addr (fun m i => m (src.addr i)) [0, 1, 2] mem
+    (viaTemp 4, viaTemp 8, viaTemp 12) = (0, 4, 8) ∧ (inPlace 4, inPlace 8, inPlace 12) = (0, 0, 0) := by decide
+
+/-- non-vacuity of `foldRowsBlocked_correct` / `sumTiled_correct` / `strided_disjoint_of_extent` -/
+example : foldRowsBlocked max id (fun i j => ((i : Int) - 20) * (j + 1)) 3 16 17 = -3 := by decide
+example : sumTiled 512 513 (fun k => (k : Int)) = sumTo 513 (fun k => (k : Int)) :=
+  sumTiled_correct 512 513 (by decide) _
+example : (⟨0, 4, 3⟩ : VRef).last < (⟨9, 4, 3⟩ : VRef).first := by decide
+
+end Kernels
+
 /-! ## 4. non-vacuity: the hypotheses of the theorems above are satisfiable, the statements
 are evaluated on concrete instances (tests, not the theorems) -/
 section NonVacuity
